@@ -179,6 +179,12 @@ class CFG:
             e = self._block(st.orelse, [(t, "F")], ctx) if st.orelse else [(t, "F")]
             self._connect(e, after)
             return [(after, "")]
+        if type(st).__name__ == "Once":
+            after = self._new("join", None, st, "after-once")
+            inner = _Ctx(brk=after, cont=ctx.cont, ret=ctx.ret, exc=ctx.exc, finals=ctx.finals)
+            body_end = self._block(st.body, preds, inner)
+            self._connect(body_end, after)
+            return [(after, "")]
         if isinstance(st, (ast.With, ast.AsyncWith)):
             enter = self._new("with_enter", st, st)
             self._connect(preds, enter)
